@@ -1,4 +1,10 @@
 TEXT = {
+ "C11": {
+  "text": "Theorem over the reals for EVERY hour value and minute offset (bounded only by -2.4e6 h <= x < 4e9 h): hour_to_time succeeds (wrap loop within fuel, h<24, m<60, s<60) and returns exactly the stated function of the unrounded minute count M and second S of x wrapped into the day - None: truncated h:m:s; Normal: minute+1 iff S>=30; Special: that for the prayers in the regenerated set {Fajr,Dhuhr,Asr,Maghrib,Isha}, seconds dropped otherwise; Aggressive: minute+1 iff S>=1 - with carries through the hour and midnight by construction (clock of M+1); a rounded time is the minute of the unrounded one or the next. Validity/flag preservation is structural (to_prayer_time copies the flag). Bit-level correspondence on every mid-second of the day x 7 prayers x 4 modes (thorough) and the public API.",
+  "design_ref": "DESIGN.md §7 C11",
+  "note": "Ideal-arithmetic semantics: floating-point rounding at exact second boundaries is not covered by the theorem (measure-zero, exercised by correspondence).",
+  "technique": "Lean 4 + Mathlib theorems over R (floor arithmetic) on the same generic model + translator + differential correspondence",
+ },
  "C07": {
   "text": "Theorems for EVERY scalar type (hence for the Float program that is bit-compared with the Rust code): the policy layer (all 15 policies, every validity pattern, every parameter value, every environment) returns Ok given that Dhuhr is present, get_hours always reports Dhuhr, the interval pass never unwraps an invalid time (flag read re-extracted from ext_lat.rs), and prayer_times_dt returns its 7-field record whenever the hour->time conversions succeed; over R (Thm/C11 hourToTime_ok) every conversion of an hour >= -2.4e6 succeeds (h<24, m<60, s<60, wrap loop terminates). Correspondence on extlat (exhaustive 2^6 patterns x 15 policies x interval configs), adj, imsaak, h2t, ptdt, raw; falsifier with catch_unwind + watchdog.",
   "design_ref": "DESIGN.md §7 C07",
